@@ -555,6 +555,13 @@ impl ZalsaLocal {
         });
     }
 
+    /// Verification hook: raw bits of this handle's cancellation token
+    /// (`0b01` = cancellation requested, `0b10` = local cancellation disabled).
+    #[cfg(salsa_verif)]
+    pub(crate) fn verif_token_bits(&self) -> u8 {
+        self.cancelled.0.load(Ordering::Relaxed)
+    }
+
     /// Verification hook: identity of this handle in traces (`h<N>`).
     #[cfg(salsa_verif)]
     pub fn verif_id(&self) -> u64 {
